@@ -19,6 +19,16 @@ fn cmd_cps(goal: &str, prog: &str, rad: &str) -> String {
 pub fn dispatch(fields: &[&str]) -> Option<String> {
     match fields {
         ["cps", goal, prog, rad] => Some(cmd_cps(goal, prog, rad)),
+        // the Python-facing string wrappers of wrappers.rs
+        ["cpspy", goal, prog, rad] => {
+            let rad: usize = rad.parse().unwrap();
+            Some(b2s(match *goal {
+                "halt" => crate::wrappers::py_cps_cant_halt(prog, rad),
+                "blank" => crate::wrappers::py_cps_cant_blank(prog, rad),
+                _ => crate::wrappers::py_cps_cant_spin_out(prog, rad),
+            })
+            .to_string())
+        },
         // cps1 (one pass of the private fn cps_cant_reach) is model-only
         _ => None,
     }
